@@ -241,12 +241,12 @@ def work_one(job):
             if kind == 'unreachable': continue
             obs.append(Oblig('%s: %s' % (kind, info), z3.And(*pc) if pc else True, (lambda c: (lambda res: c))(cond), kind=kind))
         dec = harness.Decider(timeout_s=job['timeout'])
-        base = list(ex.assume) + list(ex.side)
         known = match_known(_W['known'], prop, k)
         reported_known = set()
-        for ob in obs:
+        goals = [ob.post_fn(run.res) for ob in obs]     # may introduce side facts about fresh symbols (NaN payload bits): build before `base`
+        base = list(ex.assume) + list(ex.side)
+        for ob, goal in zip(obs, goals):
             rec['obligations'] += 1
-            goal = ob.post_fn(run.res)
             pre = [ob.pre] if not (ob.pre is True) else []
             status = decide_one(dec, rec, k, run, ob, base, pre, goal, known, reported_known, job)
             if status == 'discharged': rec['discharged'] += 1
@@ -430,7 +430,7 @@ def run_property(prop, P, tier, seed, modname, timeout=None, jobs=None, keep=Fal
     t0 = time.time()
     random.seed(seed)
     jobs = jobs or min(16, os.cpu_count() or 4)
-    timeout = timeout or (20 if tier == 'quick' else 300)
+    timeout = timeout or getattr(P, 'TIMEOUT', {}).get(tier) or (20 if tier == 'quick' else 300)
     work = tempfile.mkdtemp(prefix='xv_%s_' % prop)
     replay_root = os.path.join(VERIF, 'replays', prop)
     shutil.rmtree(replay_root, ignore_errors=True)
